@@ -46,12 +46,12 @@ fn c13_call_contract() {
     AxelarGateway::call_contract(env.clone(), caller.clone(), chain.clone(), dest.clone(), payload.clone());
 
     let hash: BytesN<32> = env.crypto().keccak256(&payload).into();
-    assert!(shim::authed(&caller), "OBL C13.sender_authorised: an outbound call returns only under the named sender's authorisation");
-    assert!(
+    soroban_sdk::obl!(shim::authed(&caller), "OBL C13.sender_authorised: an outbound call returns only under the named sender's authorisation");
+    soroban_sdk::obl!(
         shim::n_events() == 1 && shim::event_is(0, &(Symbol::new(&env, "contract_called"), caller.clone(), chain, dest, hash), &payload),
         "OBL C13.one_exact_announcement: exactly one contract_called event carrying sender, destination chain and address, keccak256(payload) and the full payload"
     );
-    assert!(
+    soroban_sdk::obl!(
         inst().n_written() == 0 && pers().n_written() == 0 && shim::temp().n_written() == 0 && shim::n_calls() == 0 && shim::n_deploys() == 0,
         "OBL C13.no_state_change: an outbound call changes no gateway state"
     );
@@ -75,21 +75,21 @@ fn c02_validate_message() {
     let k = approval_key(&sc, &mid);
     let expected = spec_approval(&env, &msg);
     let before = status_pre(&k);
-    assert!(
+    soroban_sdk::obl!(
         r == (before == expected),
         "OBL C02.consume_iff_exact_approval: true exactly when the record is Approved(hash of the message with contract_address = caller, same source address and payload hash)"
     );
     if r {
-        assert!(shim::authed(&caller), "OBL C02.consumer_authorised: a message is consumed only for the address that authorised the call");
-        assert!(status_post(&k) == MessageApprovalValue::Executed, "OBL C02.consumed_marks_executed");
-        assert!(
+        soroban_sdk::obl!(shim::authed(&caller), "OBL C02.consumer_authorised: a message is consumed only for the address that authorised the call");
+        soroban_sdk::obl!(status_post(&k) == MessageApprovalValue::Executed, "OBL C02.consumed_marks_executed");
+        soroban_sdk::obl!(
             shim::n_events() == 1 && shim::event_is(0, &(Symbol::new(&env, "message_executed"), msg.clone()), &()),
             "OBL C02.one_executed_event"
         );
-        assert!(pers().changed_only(&[Words::of(&k)]) && inst().n_changed() == 0 && shim::n_calls() == 0, "OBL C02.consume_frame: only this message's record changes");
+        soroban_sdk::obl!(pers().changed_only(&[Words::of(&k)]) && inst().n_changed() == 0 && shim::n_calls() == 0, "OBL C02.consume_frame: only this message's record changes");
         kani::cover!(true, "COVER c02_validate consumed");
     } else {
-        assert!(shim::no_effects(), "OBL C02.refused_consume_no_effect");
+        soroban_sdk::obl!(shim::no_effects(), "OBL C02.refused_consume_no_effect");
         kani::cover!(before == MessageApprovalValue::Executed, "COVER c02_validate already executed");
         kani::cover!(before == MessageApprovalValue::NotApproved, "COVER c02_validate not approved");
         kani::cover!(before != MessageApprovalValue::NotApproved && before != MessageApprovalValue::Executed, "COVER c02_validate approved for something else");
@@ -105,8 +105,8 @@ fn c02_is_message_approved() {
     let r = AxelarGateway::is_message_approved(env.clone(), m.source_chain.clone(), m.message_id.clone(), m.source_address.clone(), m.contract_address.clone(), m.payload_hash);
 
     let k = approval_key(&m.source_chain, &m.message_id);
-    assert!(r == (status_pre(&k) == spec_approval(&env, &m)), "OBL C02.query_approved_agrees: the approved query agrees with the stored record");
-    assert!(shim::no_effects() && shim::n_auth() == 0, "OBL C02.query_approved_pure");
+    soroban_sdk::obl!(r == (status_pre(&k) == spec_approval(&env, &m)), "OBL C02.query_approved_agrees: the approved query agrees with the stored record");
+    soroban_sdk::obl!(shim::no_effects() && shim::n_auth() == 0, "OBL C02.query_approved_pure");
     kani::cover!(r, "COVER c02_is_approved true");
     kani::cover!(!r, "COVER c02_is_approved false");
 }
@@ -120,8 +120,8 @@ fn c02_is_message_executed() {
     let r = AxelarGateway::is_message_executed(env.clone(), sc.clone(), mid.clone());
 
     let k = approval_key(&sc, &mid);
-    assert!(r == (status_pre(&k) == MessageApprovalValue::Executed), "OBL C02.query_executed_agrees: the executed query agrees with the stored record");
-    assert!(shim::no_effects() && shim::n_auth() == 0, "OBL C02.query_executed_pure");
+    soroban_sdk::obl!(r == (status_pre(&k) == MessageApprovalValue::Executed), "OBL C02.query_executed_agrees: the executed query agrees with the stored record");
+    soroban_sdk::obl!(shim::no_effects() && shim::n_auth() == 0, "OBL C02.query_executed_pure");
     kani::cover!(r, "COVER c02_is_executed true");
     kani::cover!(!r, "COVER c02_is_executed false");
 }
@@ -155,16 +155,16 @@ fn approve_case(n: usize) -> (bool, bool, bool) {
 
     let dh = spec_approve_data_hash(&env, &messages);
     // --- C01: the verdict comes from validate_proof over exactly this batch
-    assert!(
+    soroban_sdk::obl!(
         shim::n_calls() == 1 && shim::internal_called("auth::validate_proof", &(dh, proof.clone())),
         "OBL C01.approve_digest_binds_batch: validate_proof is asked (once) about keccak(xdr((ApproveMessages, exactly this batch))) and this proof"
     );
-    assert!(dh != spec_rotate_data_hash(&env, &WeightedSigners::symbolic()), "OBL C01.command_kinds_separated: an approval digest is never a rotation digest");
+    soroban_sdk::obl!(dh != spec_rotate_data_hash(&env, &WeightedSigners::symbolic()), "OBL C01.command_kinds_separated: an approval digest is never a rotation digest");
     let vp = unsafe { VP_RESULT };
     match r {
         Ok(()) => {
-            assert!(matches!(vp, Some(Ok(_))), "OBL C01.approve_only_with_valid_proof: approvals are recorded only if validate_proof accepted");
-            assert!(n >= 1, "OBL C01.empty_batch_rejected");
+            soroban_sdk::obl!(matches!(vp, Some(Ok(_))), "OBL C01.approve_only_with_valid_proof: approvals are recorded only if validate_proof accepted");
+            soroban_sdk::obl!(n >= 1, "OBL C01.empty_batch_rejected");
             // --- C02: per-message step, in batch order, as a fold over the batch (spec written here):
             //     state of an id = its pre-state unless an earlier message of the batch had the same id
             let keys = [approval_key(&ms[0].source_chain, &ms[0].message_id), approval_key(&ms[1].source_chain, &ms[1].message_id), approval_key(&ms[2].source_chain, &ms[2].message_id)];
@@ -202,7 +202,7 @@ fn approve_case(n: usize) -> (bool, bool, bool) {
                 }
                 k += 1;
             }
-            assert!(state_ok, "OBL C02.approve_step_state: an unknown id becomes Approved(hash of the message); a known id (also one approved earlier in the same batch) keeps its record");
+            soroban_sdk::obl!(state_ok, "OBL C02.approve_step_state: an unknown id becomes Approved(hash of the message); a known id (also one approved earlier in the same batch) keeps its record");
             let mut expected_events = 0;
             let mut events_ok = true;
             let mut k = 0;
@@ -215,13 +215,13 @@ fn approve_case(n: usize) -> (bool, bool, bool) {
                 }
                 k += 1;
             }
-            assert!(shim::n_events() == expected_events && events_ok, "OBL C02.approve_step_event: exactly one message_approved event per newly approved id, in batch order, none for a known id");
-            assert!(pers().changed_only(&[Words::of(&keys[0]), Words::of(&keys[1]), Words::of(&keys[2])]) && inst().n_changed() == 0, "OBL C02.approve_frame");
+            soroban_sdk::obl!(shim::n_events() == expected_events && events_ok, "OBL C02.approve_step_event: exactly one message_approved event per newly approved id, in batch order, none for a known id");
+            soroban_sdk::obl!(pers().changed_only(&[Words::of(&keys[0]), Words::of(&keys[1]), Words::of(&keys[2])]) && inst().n_changed() == 0, "OBL C02.approve_frame");
             let same01 = n >= 2 && ms[0].source_chain == ms[1].source_chain && ms[0].message_id == ms[1].message_id;
             (true, same01 && fresh[0], n >= 2 && !same01 && fresh[0] && fresh[1])
         }
         Err(e) => {
-            assert!(
+            soroban_sdk::obl!(
                 match vp {
                     Some(Err(ve)) => e == ve,
                     Some(Ok(_)) => n == 0 && e == ContractError::EmptyMessages,
@@ -229,11 +229,11 @@ fn approve_case(n: usize) -> (bool, bool, bool) {
                 },
                 "OBL C01.approve_err_is_proof_err: a rejected proof's error is returned unchanged; otherwise only an empty batch fails"
             );
-            assert!(
+            soroban_sdk::obl!(
                 !(matches!(vp, Some(Ok(_))) && n >= 1),
                 "OBL C08.approval_honours_any_retained_set: a non-empty batch is refused only if validate_proof refused the proof — a valid proof from an older, still retained set (latest flag false) approves just like one from the newest set"
             );
-            assert!(shim::no_external_effects(), "OBL C01.rejected_approval_no_effect");
+            soroban_sdk::obl!(shim::no_external_effects(), "OBL C01.rejected_approval_no_effect");
             (false, false, false)
         }
     }
@@ -269,9 +269,9 @@ fn c01_validate_proof_entry() {
     let dh: BytesN<32> = BytesN::symbolic();
     let proof = symbolic_proof();
     let r = <AxelarGateway as AxelarGatewayInterface>::validate_proof(&env, dh, proof.clone());
-    assert!(shim::n_calls() == 1 && shim::internal_call_is(0, "auth::validate_proof", &(dh, proof)), "OBL C01.entry_passes_through: the standalone check asks validate_proof about exactly its arguments");
-    assert!(Some(r) == unsafe { VP_RESULT }, "OBL C01.entry_returns_verdict");
-    assert!(shim::no_external_effects() && shim::n_auth() == 0, "OBL C01.entry_read_only");
+    soroban_sdk::obl!(shim::n_calls() == 1 && shim::internal_call_is(0, "auth::validate_proof", &(dh, proof)), "OBL C01.entry_passes_through: the standalone check asks validate_proof about exactly its arguments");
+    soroban_sdk::obl!(Some(r) == unsafe { VP_RESULT }, "OBL C01.entry_returns_verdict");
+    soroban_sdk::obl!(shim::no_external_effects() && shim::n_auth() == 0, "OBL C01.entry_read_only");
     kani::cover!(r.is_ok(), "COVER c01_entry ok");
     kani::cover!(r.is_err(), "COVER c01_entry err");
 }
@@ -295,26 +295,26 @@ fn c03_rotate_signers_entry() {
     let dh = spec_rotate_data_hash(&env, &signers);
     let vp = unsafe { VP_RESULT };
     if r.is_ok() {
-        assert!(
+        soroban_sdk::obl!(
             !bypass || matches!(&operator, Some(op) if shim::authed(op)),
             "OBL C06.bypass_needs_operator: a bypass rotation succeeds only under the authorisation of the operator stored at entry"
         );
-        assert!(
+        soroban_sdk::obl!(
             shim::internal_called("auth::validate_proof", &(dh, proof.clone())),
             "OBL C03.rotation_digest_binds_set: the proof is checked over keccak(xdr((RotateSigners, exactly this candidate set)))"
         );
-        assert!(
+        soroban_sdk::obl!(
             match vp {
                 Some(Ok(latest)) => bypass || latest,
                 _ => false,
             },
             "OBL C08.rotation_needs_latest_or_bypass: a rotation succeeds only with a valid proof, from the latest set unless the operator bypasses"
         );
-        assert!(
+        soroban_sdk::obl!(
             shim::internal_called("auth::rotate_signers", &(signers.clone(), !bypass)),
             "OBL C09.enforce_is_not_bypass: the set is installed through auth::rotate_signers, once, with enforce_rotation_delay == !bypass"
         );
-        assert!(wf(&signers), "OBL C03.entry_installs_wellformed_only");
+        soroban_sdk::obl!(wf(&signers), "OBL C03.entry_installs_wellformed_only");
         kani::cover!(bypass, "COVER c03_entry ok bypass");
         kani::cover!(!bypass, "COVER c03_entry ok latest");
     } else {
@@ -347,9 +347,9 @@ fn c06_gateway_constructor() {
     let sets: Vec<WeightedSigners> = Vec::abstract_symbolic();
     let r = AxelarGateway::__constructor(env.clone(), owner.clone(), operator.clone(), domain, d, rt, sets.clone());
     if r.is_ok() {
-        assert!(inst().post::<_, Address>(&OWNER_KEY) == Some(owner), "OBL C06.ctor_owner_set");
-        assert!(inst().post::<_, Address>(&OPERATOR_KEY) == Some(operator), "OBL C06.ctor_operator_set");
-        assert!(shim::internal_called("auth::initialize_auth", &(domain, d, rt, sets)), "OBL C06.ctor_delegates_auth_init");
+        soroban_sdk::obl!(inst().post::<_, Address>(&OWNER_KEY) == Some(owner), "OBL C06.ctor_owner_set");
+        soroban_sdk::obl!(inst().post::<_, Address>(&OPERATOR_KEY) == Some(operator), "OBL C06.ctor_operator_set");
+        soroban_sdk::obl!(shim::internal_called("auth::initialize_auth", &(domain, d, rt, sets)), "OBL C06.ctor_delegates_auth_init");
         kani::cover!(true, "COVER gw ctor ok");
     }
 }
@@ -381,16 +381,16 @@ fn c15_std_migrate_custom_migration() {
     });
     let open = inst().pre_has(&MIGRATING_KEY);
     let owner_at_entry: Option<Address> = inst().pre(&OWNER_KEY);
-    assert!(r.is_err() || matches!(&owner_at_entry, Some(o) if shim::authed(o)), "OBL C15.migrate_needs_owner_at_entry: a migration runs only under the authorisation of the owner stored when it was entered, whatever the custom migration does to the owner entry");
+    soroban_sdk::obl!(r.is_err() || matches!(&owner_at_entry, Some(o) if shim::authed(o)), "OBL C15.migrate_needs_owner_at_entry: a migration runs only under the authorisation of the owner stored when it was entered, whatever the custom migration does to the owner entry");
     let runs = unsafe { MIGRATION_RUNS };
     match r {
         Ok(()) => {
-            assert!(open && runs == 1 && unsafe { WINDOW_OPEN_AT_RUN }, "OBL C15.custom_migration_runs_once_in_window: the custom migration runs exactly once, while the window is still open");
-            assert!(!inst().post_has(&MIGRATING_KEY), "OBL C15.std_migrate_closes_window");
+            soroban_sdk::obl!(open && runs == 1 && unsafe { WINDOW_OPEN_AT_RUN }, "OBL C15.custom_migration_runs_once_in_window: the custom migration runs exactly once, while the window is still open");
+            soroban_sdk::obl!(!inst().post_has(&MIGRATING_KEY), "OBL C15.std_migrate_closes_window");
             kani::cover!(true, "COVER std migrate ok");
         }
         Err(_) => {
-            assert!(!open && runs == 0, "OBL C15.custom_migration_not_run_when_closed: without a preceding upgrade the migration does not run at all");
+            soroban_sdk::obl!(!open && runs == 0, "OBL C15.custom_migration_not_run_when_closed: without a preceding upgrade the migration does not run at all");
             kani::cover!(true, "COVER std migrate err");
         }
     }
@@ -430,7 +430,7 @@ fn c15_std_migrate_announces_contract_version() {
     let _h = shim::fresh_host();
     let r = interfaces::migrate::<VersionProbe>(&env, || {});
     if r.is_ok() {
-        assert!(
+        soroban_sdk::obl!(
             shim::n_events() == 1 && shim::event_is(0, &(soroban_sdk::symbol_short!("upgraded"),), &(String::from_str(&env, "9.9.9-probe"),)),
             "OBL C15.migrate_announces_contract_version: the `upgraded` event carries the migrating contract's own version()"
         );
@@ -450,8 +450,8 @@ fn c03_lookup_views() {
     let r_epoch = <AxelarGateway as AxelarGatewayInterface>::epoch(&env);
     let r_by_hash = <AxelarGateway as AxelarGatewayInterface>::epoch_by_signers_hash(&env, hsh);
     let r_by_epoch = <AxelarGateway as AxelarGatewayInterface>::signers_hash_by_epoch(&env, e);
-    assert!(inst().pre::<_, u64>(&DataKey::Epoch) == Some(r_epoch), "OBL C03.epoch_view_agrees");
-    assert!(
+    soroban_sdk::obl!(inst().pre::<_, u64>(&DataKey::Epoch) == Some(r_epoch), "OBL C03.epoch_view_agrees");
+    soroban_sdk::obl!(
         match (pers().pre::<_, u64>(&DataKey::EpochBySignersHash(hsh)), r_by_hash) {
             (Some(x), Ok(y)) => x == y,
             (None, Err(ContractError::InvalidSignersHash)) => true,
@@ -459,7 +459,7 @@ fn c03_lookup_views() {
         },
         "OBL C03.epoch_by_hash_view_agrees: the set -> epoch query reports exactly the stored lookup (InvalidSignersHash if none)"
     );
-    assert!(
+    soroban_sdk::obl!(
         match (pers().pre::<_, BytesN<32>>(&DataKey::SignersHashByEpoch(e)), r_by_epoch) {
             (Some(x), Ok(y)) => x == y,
             (None, Err(ContractError::InvalidEpoch)) => true,
@@ -467,6 +467,6 @@ fn c03_lookup_views() {
         },
         "OBL C03.hash_by_epoch_view_agrees: the epoch -> set query reports exactly the stored lookup (InvalidEpoch if none)"
     );
-    assert!(shim::no_effects() && shim::n_auth() == 0, "OBL C03.lookup_views_pure");
+    soroban_sdk::obl!(shim::no_effects() && shim::n_auth() == 0, "OBL C03.lookup_views_pure");
     kani::cover!(r_by_hash.is_ok() && r_by_epoch.is_err(), "COVER lookup views mixed");
 }
